@@ -298,7 +298,7 @@ UNARY = [
     "wrap-tuple", "wrap-optional", "wrap-required", "wrap-list", "attach", "detach", "detach_self", "replace-property", "replace-noop", "replace-bad-key", "replace-forbidden-key",
     "replace_with-None", "duplicate", "duplicate-detached", "transform-inc", "transform-remove-even", "transform-raises", "transform-raises-late", "transformer-inc", "transformer-remove", "transformer-fresh",
 ]
-BINARY = ["wrap-pair", "replace_with", "replace-child", "transform-return-existing"]
+BINARY = ["wrap-pair", "wrap-abstract-sequence", "replace_with", "replace-child", "transform-return-existing"]
 ALL_OPS = NULLARY + UNARY + BINARY  # the guided-only operations (DETACHED_WRAPS) are unary as well
 
 
@@ -325,6 +325,8 @@ def apply_op(op: str, r: Any, a: Any) -> Any:
         return LZ.LReq(child=r, origin=o, create_detached=True)
     if op == "wrap-pair":
         return LZ.LTup(items=(r, a), origin=o)
+    if op == "wrap-abstract-sequence":
+        return LZ.LAbs(head=r, extras=(a,), origin=o)
     if op == "attach":
         return r.attach()
     if op == "detach":
@@ -478,7 +480,7 @@ def make_harness(K: int, which: str, first_ops: list[str] | None = None, later_o
             # histories that would put one object at two positions are outside the statement:
             if op == "replace_with" and (contains(a, r) or contains(r, a)):
                 e.assume(False)
-            if op in ("wrap-pair",) and (contains(a, r) or contains(r, a)):
+            if op in ("wrap-pair", "wrap-abstract-sequence") and (contains(a, r) or contains(r, a)):
                 e.assume(False)
             if op == "replace-child" and (contains(a, r) or contains(r, a)):
                 e.assume(False)
